@@ -18,7 +18,9 @@ pub const EXP: u64 = 10_000_000;
 fn c14_alphabet_quick(_cfg: &NodeCfg) -> Vec<Op> {
     // Send(5) fills and closes a small segment in one step
     // SetExpiry(3*EXP): a *raised* finite expiry must protect already closed segments
-    vec![Op::Send(1), Op::Send(5), Op::Advance(EXP + 1), Op::Maintain, Op::Restart, Op::SetExpiry(3 * EXP)]
+    // the clock moves in steps of half an expiry (+1): two steps expire a message, one step leaves a
+    // segment whose batches have different ages
+    vec![Op::Send(1), Op::Send(5), Op::Advance(EXP / 2 + 1), Op::Maintain, Op::Restart, Op::SetExpiry(3 * EXP)]
 }
 
 fn c14_alphabet(_cfg: &NodeCfg) -> Vec<Op> {
@@ -184,6 +186,16 @@ pub fn plan(prop: &str, tier: &str) -> (PropMeta, Vec<Job>) {
     };
     let cap = if quick { 240 } else { 1500 };
     let mut pj = make_jobs(prop, &cfgs, &|c| alpha(c), depth, 1, cap);
+    if prop == "C14" {
+        // non-initial starting state: the open segment already holds a batch that is half an expiry old,
+        // so the segments the histories close contain batches of different ages
+        let with_expiry: Vec<NodeCfg> = cfgs.iter().filter(|c| c.expiry_us > 0).cloned().collect();
+        let mut aged = make_jobs(prop, &with_expiry, &|c| alpha(c), depth - 1, 1, cap);
+        for j in aged.iter_mut() {
+            j.prelude = vec![Op::Send(2), Op::Advance(EXP / 2 + 1)];
+        }
+        pj.extend(aged);
+    }
     for j in pj.iter_mut() {
         j.tcp = tcp;
     }
@@ -196,7 +208,7 @@ pub fn plan(prop: &str, tier: &str) -> (PropMeta, Vec<Job>) {
         id,
         level: "model_checking",
         rule: format!(
-            "every history of exactly {depth} operations over the alphabet (for the first configuration: {sample_alpha:?}) is executed against the real server from a fresh copy of a journalled template directory, for each of {} configurations; the oracle runs after every step; a state is distinct by (configuration, digest of the data directory, in-memory partition/segment facts)",
+            "every history of exactly {depth} operations over the alphabet (for the first configuration: {sample_alpha:?}) is executed against the real server from a fresh copy of a journalled template directory, for each of {} configurations (C14: the expiry configurations a second time, one step shorter, from a state in which the open segment already holds a batch half an expiry old); the oracle runs after every step; a state is distinct by (configuration, digest of the data directory, in-memory partition/segment facts)",
             cfgs.len()
         ),
         bounds: json!({
@@ -278,7 +290,7 @@ impl Oracle for C14 {
         Ok(())
     }
     fn step(&mut self, w: &mut World, op: &Op, out: &StepOut, ctx: &mut StepCtx) -> Result<(), String> {
-        model_step(&mut self.m, op, out, ctx)?;
+        model_step(w, &mut self.m, op, out, ctx)?;
         self.m.retention_seen = true;
         match (op, out) {
             (Op::SetExpiry(u), StepOut::Done(Ok(()))) => self.expiry = *u,
@@ -560,7 +572,7 @@ impl Oracle for C16 {
                 self.m[0].retention_seen = w.cfg.expiry_us > 0;
                 self.m[1].retention_seen = w.cfg.expiry_us > 0;
             }
-            _ => model_step(&mut self.m[0], op, out, ctx)?,
+            _ => model_step(w, &mut self.m[0], op, out, ctx)?,
         }
         let full = [poll_part(w, 1)?, poll_part(w, 2)?];
         for pi in 0..2 {
@@ -687,7 +699,7 @@ pub struct C18 {
 
 impl Oracle for C18 {
     fn step(&mut self, w: &mut World, op: &Op, out: &StepOut, ctx: &mut StepCtx) -> Result<(), String> {
-        model_step(&mut self.m, op, out, ctx)?;
+        model_step(w, &mut self.m, op, out, ctx)?;
         let full = poll_part(w, 1)?;
         ctx.res.obs_keys.push(hash64(format!("{:?}", full.msgs.iter().map(|g| (g.offset, g.id)).collect::<Vec<_>>()).as_bytes()));
         if w.cfg.dedup {
